@@ -39,6 +39,8 @@ def run_once(ctx: Ctx, prefix: List[int], expect: Optional[list] = None, policy:
 
 
 def _subtree(ctx: Ctx, prefix: List[int], expect: list, budget: int, c: Counter):
+    if c.enough():
+        return
     x = run_once(ctx, prefix, expect)
     c.inc('executions')
     c.inc('points', len(x.points))
